@@ -154,6 +154,23 @@ func calleeFns(c ssa.CallInstruction) []*ssa.Function {
 			}
 		case *ssa.Const:
 			// nil function value: ignore (calling it would panic)
+		case *ssa.Call:
+			// the result of a helper of the same package all of whose returns are function values
+			g := x.Call.StaticCallee()
+			if g == nil || g.Blocks == nil || x.Parent() == nil || g.Pkg == nil || g.Pkg != x.Parent().Pkg || g.Signature.Results().Len() != 1 {
+				okAll = false
+				return
+			}
+			n := 0
+			liveInstrs(g, func(in ssa.Instruction) {
+				if r, ok := in.(*ssa.Return); ok && len(r.Results) == 1 {
+					n++
+					walk(r.Results[0])
+				}
+			})
+			if n == 0 {
+				okAll = false
+			}
 		default:
 			okAll = false
 		}
